@@ -89,7 +89,7 @@ type RPCCase struct {
 	// handler waits until the client has reported receiving it.
 	LockStep bool   `json:"lock_step,omitempty"`
 	Client   string `json:"client,omitempty"` // lock-step lane: h1-http | h2c-http | grpc | h1-web
-	Opts      Opts   `json:"opts"`
+	Opts     Opts   `json:"opts"`
 }
 
 func (c *RPCCase) unary() bool   { return c.Method == "Echo" }
